@@ -79,7 +79,32 @@ def _tab_to_cfg(tab):
 
 # (in-process rewrites, fresh-process rewrites) per generation group of FontCycleGen, Focus = "cover"
 _GROUP_WRITES = {"layout": (4, 2), "shapes": (3, 2), "glyphs": (2, 1), "index": (2, 1), "big": (2, 1),
+                 "hints": (1, 0), "classes": (1, 0), "coverage": (1, 0), "pairs": (1, 0),
                  "onefactor": (2, 1), "sweep": (0, 0)}
+
+# quick tier: groups that are sampled by seed (stratified: every value of the key occurs), quota and key
+_QUICK_SAMPLE = {
+    "hints": (72, lambda c: (c["kind"], c["hcnt"], c["hwidth"], c["hmask"])),
+    "coverage": (128, lambda c: (len(c["cov"]), 0 in c["cov"])),
+}
+
+
+def _sample(cases, quota, key, seed):
+    """Seeded stratified sample: one case per key value first, then filled up to the quota."""
+    import random
+    rng = random.Random(seed * 7919 + 13)
+    pool = list(cases)
+    rng.shuffle(pool)
+    seen, first, rest = set(), [], []
+    for c in pool:
+        k = key(c["cfg"])
+        if k in seen:
+            rest.append(c)
+        else:
+            seen.add(k)
+            first.append(c)
+    out = first + rest[:max(0, quota - len(first))]
+    return sorted(out, key=lambda c: c["id"])
 
 
 def _built_cases(ctx, n, glyph_counts, first_id, again, fresh, label, focus="random"):
@@ -89,10 +114,11 @@ def _built_cases(ctx, n, glyph_counts, first_id, again, fresh, label, focus="ran
     cfg = re.sub(r"GlyphCounts = \{[^}]*\}", "GlyphCounts = {%s}" % ", ".join(str(g) for g in glyph_counts), cfg)
     cfg = cfg.replace('Focus = "random"', 'Focus = "%s"' % focus)
     if not ctx.quick():
+        cfg = cfg.replace("Span = 5", "Span = 8")
         cfg = cfg.replace("IdxLens = {254, 255, 256, 257}", "IdxLens = {254, 255, 256, 257, 65534, 65535, 65536, 65537}")
         cfg = cfg.replace("Dense = FALSE", "Dense = TRUE")
     if focus == "random":
-        res = ctx.tlc("FontCycleGen", cfg="FCGen.cfg", files={"FCGen.cfg": cfg}, workers=1, simulate=n, depth=45,
+        res = ctx.tlc("FontCycleGen", cfg="FCGen.cfg", files={"FCGen.cfg": cfg}, workers=1, simulate=n, depth=80,
                       timeout=600, label=label)
     else:
         res = ctx.tlc("FontCycleGen", cfg="FCGen.cfg", files={"FCGen.cfg": cfg}, workers=4, timeout=600, label=label)
@@ -347,8 +373,21 @@ def run(ctx):
     # every run, exhaustively (FontCycleGen Focus "cover"): all layout-table kinds with rich script lists; glyf table
     # sizes x raw-table layouts with a multi-subtable cmap; composites with nil / empty / even / odd instructions;
     # CFF INDEX data lengths around the offset-size switches; tables beyond the parser's 1024-byte window; every scalar
-    # through its domain one at a time; weight 0..1000 x {regular, bold, none} and the other threshold scalars densely
+    # through its domain one at a time; weight 0..1000 x {regular, bold, none} and the other threshold scalars densely;
+    # CFF stem hint counts at the stack limits; every class definition table over Span glyphs and every coverage table
+    # over 8 glyphs in all their uses; related scalars (times, vertical metrics, underline, heights, slant) in every order
     cover = _built_cases(ctx, 0, [30], 110001, 2, 1, "FontCycleGen cover (exhaustive)", focus="cover")
+    ncover = len(cover)
+    if ctx.quick():
+        kept = []
+        for g in sorted(set(c["cfg"]["group"] for c in cover)):
+            part = [c for c in cover if c["cfg"]["group"] == g]
+            if g in _QUICK_SAMPLE:
+                part = _sample(part, _QUICK_SAMPLE[g][0], _QUICK_SAMPLE[g][1], ctx.seed)
+            kept += part
+        cover = sorted(kept, key=lambda c: c["id"])
+        ctx.notes.append("quick tier: %d of the %d configurations of the exhaustive cover are run (groups %s sampled by seed)"
+                         % (len(cover), ncover, ", ".join(sorted(_QUICK_SAMPLE))))
     sweep = [c for c in cover if c["cfg"]["group"] == "sweep"]
     cover = [c for c in cover if c["cfg"]["group"] != "sweep"]
     missing = set(_GROUP_WRITES) - set(c["cfg"]["group"] for c in cover + sweep)
